@@ -5,6 +5,7 @@ package vtime
 import (
 	"time"
 
+	"verif/shim/vchan"
 	"verif/vsched"
 )
 
@@ -71,3 +72,112 @@ func Sleep(d Duration) {
 		vsched.Yield("time.sleep")
 	}
 }
+
+// ---------------------------------------------------------------- timers
+//
+// Virtual timers fire only when nothing else can run (the scheduler's idle hook): the clock jumps to the
+// earliest pending timer. Code that waits for "either an event or a timeout" is therefore explored with the
+// event winning whenever it can happen, and with the timeout when it cannot.
+
+type timerRec struct {
+	at      time.Time
+	c       *vchan.Chan[Time]
+	f       func()
+	stopped bool
+	fired   bool
+	period  Duration
+}
+
+var timers []*timerRec
+
+//go:norace
+func init() {
+	vsched.OnRunStart(func() { timers = nil })
+	vsched.OnIdle(fireEarliest)
+}
+
+//go:norace
+func fireEarliest() bool {
+	var best *timerRec
+	for _, t := range timers {
+		if t.stopped || t.fired {
+			continue
+		}
+		if best == nil || t.at.Before(best.at) {
+			best = t
+		}
+	}
+	if best == nil {
+		return false
+	}
+	if best.at.After(now) {
+		now = best.at
+	}
+	if best.period > 0 {
+		best.at = best.at.Add(best.period)
+	} else {
+		best.fired = true
+	}
+	if best.f != nil {
+		best.f()
+	} else if vchan.Len(best.c) == 0 {
+		vchan.Send(best.c, now)
+	}
+	return true
+}
+
+//go:norace
+func addTimer(d Duration, f func(), period Duration) *timerRec {
+	t := &timerRec{at: now.Add(d), f: f, period: period}
+	if f == nil {
+		t.c = vchan.Make[Time](1)
+	}
+	timers = append(timers, t)
+	return t
+}
+
+//go:norace
+func After(d Duration) *vchan.Chan[Time] { return addTimer(d, nil, 0).c }
+
+//go:norace
+func Tick(d Duration) *vchan.Chan[Time] { return addTimer(d, nil, d).c }
+
+type Timer struct {
+	C *vchan.Chan[Time]
+	r *timerRec
+}
+
+//go:norace
+func NewTimer(d Duration) *Timer { r := addTimer(d, nil, 0); return &Timer{C: r.c, r: r} }
+
+//go:norace
+func AfterFunc(d Duration, f func()) *Timer { r := addTimer(d, f, 0); return &Timer{r: r} }
+
+//go:norace
+func (t *Timer) Stop() bool {
+	active := !t.r.stopped && !t.r.fired
+	t.r.stopped = true
+	return active
+}
+
+//go:norace
+func (t *Timer) Reset(d Duration) bool {
+	active := !t.r.stopped && !t.r.fired
+	t.r.stopped, t.r.fired = false, false
+	t.r.at = now.Add(d)
+	return active
+}
+
+type Ticker struct {
+	C *vchan.Chan[Time]
+	r *timerRec
+}
+
+//go:norace
+func NewTicker(d Duration) *Ticker { r := addTimer(d, nil, d); return &Ticker{C: r.c, r: r} }
+
+//go:norace
+func (t *Ticker) Stop() { t.r.stopped = true }
+
+//go:norace
+func (t *Ticker) Reset(d Duration) { t.r.period = d; t.r.at = now.Add(d); t.r.stopped = false }
